@@ -177,7 +177,7 @@ NEAR_ONE = "1048575/1048576"          # 1 - 2^-20
 def gen_repr(rng, chain=False):
     """input representation / planner options of the impl runner (harness/impl/c04_impl.py)"""
     rp = {"labels": rng.choice(["int"] * 5 + ["str", "str", "tuple", "tuple", "falsy", "falsy"]),
-          "dist_objects": rng.random() < .3, "actions_tuple": rng.random() < .7,
+          "dist_objects": rng.random() < .3, "actions_tuple": rng.random() < .7, "actions_shared": rng.random() < .4,
           "init": rng.choice(["object", "object", "callable", "initial_state"]),
           "int_numbers": rng.random() < .25, "no_listener": rng.random() < .15}
     if rng.random() < .05:
@@ -365,8 +365,13 @@ def prepare(case, res):
     nonabs = [s for s in range(n) if not p.absf[s]]
     ok = all(all(p.av[s][a] for a in p.ret[s]) and sum(p.ret[s].values()) == 1 for s in nonabs)
     p.Vret, p.Nret = policy_solve(p.P, p.R, p.absf, p.g, p.ret, nonabs) if ok else (None, None)
-    p.scale = max([F(1)] + [abs(x) for x in p.V] + [abs(x) for x in p.Vs])
-    p.tiny = F(1, 10**9) * p.scale
+    # magnitude of the numbers the float look-aheads add up: values (initially the heuristic) AND rewards
+    p.scale = max([F(1)] + [abs(x) for x in p.V] + [abs(x) for x in p.Vs] + [abs(x) for x in p.h]
+                  + [abs(F(r)) for r in mc["reward"].values()])
+    # float noise of a look-ahead is a few ulps of the largest value (~1e-15 * scale); 1e-13 leaves two
+    # orders of magnitude.  (It was 1e-9 * scale: that hid label errors of relative size 1e-9, i.e. every
+    # run whose margin is below 1e-9 * |values|.)
+    p.tiny = F(1, 10**13) * p.scale
     p.mono = is_monotone(p.P, p.R, p.av, p.absf, p.g, p.h)
     p.mono_tol = is_monotone(p.P, p.R, p.av, p.absf, p.g, p.h, p.tiny)
     p.admissible = all(p.h[s] >= p.Vs[s] for s in range(n) if not p.absf[s])
@@ -626,6 +631,64 @@ def tie_scenarios():
             for seed in range(8)]
 
 
+def shared_list_scenarios():
+    """ONE action list object shared by all states (QuickTabularMDP(actions=[...])), shuffled action order,
+    an exact tie at the start state between 'a' -> {m, w} and 'b' -> u (u optimistic under the heuristic,
+    really worth -5), and new states first met inside _check_solved: the order recorded for an already seen
+    state must not be disturbed by later states, and the caller's list must come back unchanged"""
+    mc = {"n": 5, "nA": 2, "actions": [[0, 1]] * 5,
+          "trans": {"0,0": [[1, "1/2"], [2, "1/2"]], "0,1": [[3, "1"]],
+                    "1,0": [[4, "1"]], "1,1": [[4, "1"]], "2,0": [[4, "1"]], "2,1": [[4, "1"]],
+                    "3,0": [[4, "1"]], "3,1": [[4, "1"]], "4,0": [[4, "1"]], "4,1": [[4, "1"]]},
+          "reward": {"0,0,1": "-1", "0,0,2": "-1", "0,1,3": "-1", "1,0,4": "-1", "1,1,4": "-1",
+                     "2,0,4": "-1", "2,1,4": "-1", "3,0,4": "-5", "3,1,4": "-5"},
+          "absorbing": [False, False, False, False, True], "init": [[0, "1"]], "gamma": "1"}
+    return [{"mdp": mc, "heuristic": ["-2", "-1", "-1", "-1", "0"], "kind": "scenario-shared-action-list",
+             "margin": "1/100", "seed": seed, "randomize": True, "iterations": 4000, "max_log": 600, "tags": ["routing"],
+             "repr": {"labels": lab, "actions_shared": True, "actions_tuple": False}}
+            for seed in range(10) for lab in (["str"] if seed % 2 else ["int"])]
+
+
+def gen_tight(rng, tier):
+    """margin / value-scale ratios beyond 1e9 with gradual convergence: either a very tight margin
+    (1e-10, 1e-12 with values of order 1..100) or rewards of order 1e8..1e9 with margin 1e-2; stochastic
+    self-loops are added so that values creep towards the optimum and a state labelled a little too early
+    is visibly off"""
+    gamma = "1" if rng.random() < .5 else None
+    mc = gen_mdp.gen_mdp(rng, nmax=4 if tier == "quick" else 6, amax=2, gamma=gamma, proper=True, min_states=2,
+                         zero_entries=False)
+    nonpos = F(mc["gamma"]) == 1
+    for s in range(mc["n"]):
+        if mc["absorbing"][s]:
+            continue
+        for a in mc["actions"][s]:
+            key = "%d,%d" % (s, a)
+            row = mc["trans"][key]
+            if rng.random() < .6 and all(ns != s for ns, _ in row):
+                mc["trans"][key] = [[s, "1/2"]] + [[ns, str(F(pr) / 2)] for ns, pr in row]
+                r = F(rng.randint(-4, -1 if nonpos else 4))
+                if r != 0:
+                    mc["reward"]["%d,%d,%d" % (s, a, s)] = str(r)
+    tags = ["tight_margin_ratio"]
+    if rng.random() < .5:
+        K = rng.choice([10**8, 10**9])
+        mc["reward"] = {k: str(F(r) * K) for k, r in mc["reward"].items()}
+        margin = "1/100"
+        tags.append("huge_rewards")
+    else:
+        margin = rng.choice(["1/10000000000", "1/1000000000000"])
+    P, R, av, absf, ini = arrays(mc)
+    Vs = exact_vstar(P, R, av, absf, F(mc["gamma"]))
+    kind = rng.choice(["const", "const", "slack", "nonmono"])
+    h = make_heuristic(rng, kind, mc, Vs, absf)
+    if "huge_rewards" in tags and kind != "const":
+        h = [up_double(v + (K if not absf[i] else 0)) for i, v in enumerate(Vs)]
+    return {"mdp": mc, "heuristic": [str(x) for x in h], "kind": "tight-" + kind, "margin": margin,
+            "seed": rng.randint(0, 4 if tier == "quick" else 29), "randomize": rng.random() < .5,
+            "iterations": 20000, "max_log": 600 if tier == "quick" else 1500,
+            "repr": dict(gen_repr(rng), max_trial_length=None), "tags": tags}
+
+
 def regression_cases():
     """fixed inputs on which msdm's LRTDP violated the property before the fix commits (must pass now,
     must fire if a defect returns)"""
@@ -667,12 +730,14 @@ def run(ctx):
     ncases = 110 if tier == "quick" else 3500
     nchains = 24 if tier == "quick" else 500
     nrouting = 30 if tier == "quick" else 600
+    ntight = 16 if tier == "quick" else 300
     if ctx.replay_case:
         cases = [ctx.replay_case["detail"]["case"]]
     else:
         cases = [gen_case(ctx.rng, tier) for _ in range(ncases)] + regression_cases() \
             + [gen_chain(ctx.rng, tier) for _ in range(nchains)] \
-            + [gen_routing(ctx.rng, tier) for _ in range(nrouting)] + tie_scenarios()
+            + [gen_routing(ctx.rng, tier) for _ in range(nrouting)] + tie_scenarios() + shared_list_scenarios() \
+            + [gen_tight(ctx.rng, tier) for _ in range(ntight)]
     shards = min(ctx.jobs, 4 if tier == "quick" else 16)
     impl = ctx.impl("c04_impl.py", {"cases": cases}, shards=shards)["results"]
     # chains (one planner object reused on several problems) are judged step by step, each step with
@@ -683,7 +748,7 @@ def run(ctx):
     cnt = {k: 0 for k in ["cases", "cert_checks", "replays", "replay_ops", "predictions", "predicted_calls",
                           "nonmonotone", "nonmonotone_cert_ok", "nonmonotone_cert_rejects", "nonadmissible_skipped",
                           "returned_policy_differs_from_labelled_greedy", "untouched_labelled_states",
-                          "recomputed_greedy_differs_from_recorded_action", "regression_cases", "replay_skipped_long", "chain_steps", "chain_later_steps", "soft_unfinished", "exact_ties_distinct_successors",
+                          "recomputed_greedy_differs_from_recorded_action", "regression_cases", "replay_skipped_long", "chain_steps", "chain_later_steps", "soft_unfinished", "exact_ties_distinct_successors", "margin_below_1e-9_of_values",
                           "absorbing_initial_mass", "zero_prob_initial_entry", "converged_attr_missing",
                           "absorbing_untouched_reads_heuristic", "prediction_near_margin", "log_overflow",
                           "trials_total", "checks_failed_then_updated"]}
@@ -707,6 +772,11 @@ def run(ctx):
             cnt["nonadmissible_skipped"] += 1
             continue
         kinds[case["kind"]] = kinds.get(case["kind"], 0) + 1
+        if res.get("mutated"):
+            ctx.violation("C04:planner-mutated-the-problem:" + "+".join(res["mutated"]),
+                          {"case": origs[i], "chain_step": steps[i], "mutated": res["mutated"],
+                           "correspondence": "the model plans on a fixed MDP; plan_on changed what the caller's MDP object returns"}, found=False)
+        cnt["margin_below_1e-9_of_values"] += int(p.margin * 10**9 < p.scale)
         margins[case["margin"]] = margins.get(case["margin"], 0) + 1
         for k, v in gen_mdp.features(case["mdp"]).items():
             if isinstance(v, bool):
@@ -720,8 +790,10 @@ def run(ctx):
         cnt["nonmonotone"] += int(not p.mono_tol)
         cnt["regression_cases"] += int(case["kind"].startswith("regression"))
         rp = case.get("repr") or {}
+        shared = bool(rp.get("actions_shared")) and all(a == case["mdp"]["actions"][0] for a in case["mdp"]["actions"])
         for tg in list(case.get("tags", ())) + ["labels_" + rp.get("labels", "int")] + [k for k in
                   ("dist_objects", "int_numbers", "no_listener", "seed_none", "touch_views") if rp.get(k)] + \
+                  (["actions_one_shared_list"] if shared else (["actions_persistent_lists"] if not rp.get("actions_tuple", True) else [])) + \
                   (["max_trial_length"] if rp.get("max_trial_length") is not None else []) + \
                   (["init_" + rp.get("init", "object")]) + (["iterations_cap"] if case["iterations"] <= 2 else []) + \
                   (["gamma_near_one"] if case["mdp"]["gamma"] == NEAR_ONE else []) + (["margin_ge_1"] if F(case["margin"]) >= 1 else []) + \
@@ -829,7 +901,8 @@ def run(ctx):
                 "gamma in {1/2,3/4,7/8,9/10,19/20,1}) x heuristic family {constant bound, exact, exact+slack, exact with junk at "
                 "absorbing states, admissible non-monotone} (rounded UP to doubles) x margin {1e-1,1e-2,1e-4} x seed x "
                 "randomize_action_order; plus ROUTING problems (integer step costs, hop-count heuristic: exact ties between actions with "
-                "different successors) and a fixed exact-tie scenario over 8 seeds with shuffled action order; plus CHAINS: one LRTDP object planning on A, a perturbed B with the same labels "
+                "different successors), fixed exact-tie scenarios with shuffled action order (incl. ONE action list object shared by all "
+                "states), TIGHT problems (margin 1e-10/1e-12 or rewards 1e8..1e9 with margin 1e-2, stochastic self-loops); plus CHAINS: one LRTDP object planning on A, a perturbed B with the same labels "
                 "(re-drawn probabilities/rewards, same successor sets), and A again, every step judged with its own MDP; "
                 "distinct = structural hash of (MDP, heuristic, margin, seed, option, chain step); non-trivial = at least one "
                 "non-absorbing state (all cases)" % (5 if tier == "quick" else 7),
@@ -843,7 +916,7 @@ def near_margin(p, res):
     (replays the log in Fractions on the implementation's own float values; all actions are tried
     because the greedy action itself may be a float tie)"""
     V = list(p.h)
-    tol = F(1, 10**9) * p.scale
+    tol = p.tiny
     for op in res["ops"]:
         if op[0] == "U":
             V[op[1]] = vlib.frac(op[2])
